@@ -91,9 +91,11 @@ class Kernel:
         self.switches = 0
         self.forced: typing.Optional[list] = cfg.get('schedule')  # replay: explicit decisions
         self.decisions: list = []
-        self.trace_files: tuple = tuple(cfg.get('trace_files', ()))
+        self.trace_files: tuple = tuple(cfg.get('trace_files', ()))  # opcode-level pre-emption
+        self.trace_entry_files: tuple = tuple(cfg.get('trace_entry_files', ()))  # function entry only
         self.pct_changes: set = set()
         self.failed: typing.Optional[BaseException] = None
+        self.stalled: dict[int, float] = {}
         if self.policy == 'pct':
             depth = cfg.get('pct_depth', 3)
             horizon = cfg.get('pct_horizon', 2000)
@@ -114,7 +116,7 @@ class Kernel:
         def bootstrap():
             task.sem.acquire()
             try:
-                if task.kind in ('thread', 'main') and kernel.trace_files:
+                if task.kind in ('thread', 'main') and (kernel.trace_files or kernel.trace_entry_files):
                     sys.settrace(kernel._make_tracer(task))
                 fn()
             except BaseException as err:  # pylint: disable=broad-except
@@ -268,7 +270,9 @@ class Kernel:
     def yield_(self, label: str) -> None:
         me = self.current
         if self.fault('stall'):
-            self.sleep((0.5, 2.0, 7.0)[self.choose(3)], 'stalled')
+            duration = (0.5, 2.0, 7.0)[self.choose(3)]
+            self.stalled[me.tid] = self.stalled.get(me.tid, 0.0) + duration
+            self.sleep(duration, 'stalled')
             return
         self._switch(me, label)
 
@@ -326,10 +330,15 @@ class Kernel:
                 task.lastop.pop(id(frame), None)
             return local
 
+        entry_files = self.trace_entry_files
+
         def tracer(frame, event, arg):  # pylint: disable=unused-argument
             if event != 'call':
                 return None
-            if not frame.f_code.co_filename.endswith(files):
+            filename = frame.f_code.co_filename
+            if not filename.endswith(files):
+                if entry_files and filename.endswith(entry_files) and not task.nopreempt:
+                    kernel._preempt(task, frame)
                 return None
             frame.f_trace_opcodes = True
             frame.f_trace_lines = False
